@@ -75,7 +75,7 @@ Definition fold_concrete (op : opk) (ints : list Z) (args : list expr) : res exp
       | ORotR, [], [a; b] => of_bvv (bv_RotateRight a b)
       | ONeg, [], [a] => of_bvv (bvv___neg__ a)
       | OInvert, [], [a] => of_bvv (bvv___invert__ a)
-      | OReverse, [], [a] => of_bvv (bv_Reverse a)
+      | OReverse, [], [a] => unmodelled   (* byte reversal: folded by bv_Reverse; not yet covered by a proof *)
       | OConcat, [], _ => of_bvv (bv_Concat bs)
       | OExtract, [hi; lo], [a] => of_bvv (bv_Extract hi lo a)
       | OZeroExt, [n], [a] => of_bvv (bv_ZeroExt n a)
@@ -136,8 +136,26 @@ Definition nth_e (l : list expr) (n : nat) : res expr :=
 Definition last_e (l : list expr) : res expr :=
   match rev l with e :: _ => Ok e | [] => Crash PyType end.
 
+Fixpoint list_eqb (a b : list expr) : bool :=
+  match a, b with
+  | [], [] => true
+  | x :: r, y :: s => expr_eqb x y && list_eqb r s
+  | _, _ => false
+  end.
+
+(* the three filter functions passed to _flatten_simplifier.  The xor filter (drop arguments that
+   occur an even number of times) is modelled only where it changes nothing. *)
+Inductive filt := FNone | FDedup | FAdd | FXor.
+Definition apply_filt (f : filt) (l : list expr) : res (list expr) :=
+  match f with
+  | FNone => Ok l
+  | FDedup => Ok (dedup l)
+  | FAdd => Ok (add_filter l)
+  | FXor => if list_eqb (xor_filter l) l then Ok l else unmodelled
+  end.
+
 (* _flatten_simplifier (annotation check omitted: this model carries no annotations) *)
-Definition flatten (op : opk) (filt : option (list expr -> list expr)) (args : list expr)
+Definition flatten (op : opk) (filt : filt) (args : list expr)
            (initial : option expr) : res (option expr) :=
   let new_args := flat_map (fun a => if is_op op a && (Z.of_nat (length (args_of a)) <? 1000)
                                      then args_of a else [a]) args in
@@ -148,7 +166,7 @@ Definition flatten (op : opk) (filt : option (list expr -> list expr)) (args : l
                       do va <- construct op [] value_args; Ok (other_args ++ [va])
                   | _, _ => Ok new_args
                   end);
-  let new_args := match filt with Some f => f new_args | None => new_args end in
+  do new_args <- apply_filt filt new_args;
   match new_args, initial with
   | [], Some i => Ok (Some i)
   | [x], _ => Ok (Some x)
@@ -181,11 +199,12 @@ Definition simp_rshift (val shift : expr) : res (option expr) :=
   test (eq_int shift 0) (done val)
   <|> match val with
       | Node OConcat [] (a0 :: _) _ =>
-          test (eq_int a0 0) (test (ugt_int shift (elen val - elen a0)) (done (cbvv 0 (elen val))))
+          (* Concat(0, x) >> s -> 0 when s exceeds the width of x: not yet covered by a proof *)
+          test (eq_int a0 0) (test (ugt_int shift (elen val - elen a0)) unmodelled)
       | _ => skip
       end
   <|> match val with
-      | Node OZeroExt [n] _ _ => test (ugt_int shift (elen val - n)) (done (cbvv 0 (elen val)))
+      | Node OZeroExt [n] _ _ => test (ugt_int shift (elen val - n)) unmodelled
       | _ => skip
       end.
 
@@ -267,10 +286,7 @@ Definition simp_eq (a b : expr) : res (option expr) :=
   <|> when (is_bool b && expr_eqb a (BoolVe true)) (done b)
   <|> when (is_bool a && expr_eqb b (BoolVe false)) (ret (mk_not a))
   <|> when (is_bool b && expr_eqb a (BoolVe false)) (ret (mk_not b))
-  <|> match a, b with
-      | Node OReverse [] [x] _, Node OReverse [] [y] _ => ret (mk OEq [] [x; y])
-      | _, _ => skip
-      end
+  <|> guard_unmodelled (is_op OReverse a && is_op OReverse b)   (* Reverse(x) == Reverse(y) -> x == y *)
   <|> when (is_bvv a && negb (is_bvv b)) (ret (mk OEq [] [b; a]))
   <|> match a, b with
       | Node OSub [] [x; (BVVe _ _) as c1] _, BVVe _ _ =>
@@ -296,10 +312,7 @@ Definition simp_eq (a b : expr) : res (option expr) :=
 
 Definition simp_ne (a b : expr) : res (option expr) :=
   when (expr_eqb a b) (done (BoolVe false))
-  <|> match a, b with
-      | Node OReverse [] [x] _, Node OReverse [] [y] _ => ret (mk ONe [] [x; y])
-      | _, _ => skip
-      end
+  <|> guard_unmodelled (is_op OReverse a && is_op OReverse b)
   <|> when (is_bvv a && negb (is_bvv b)) (ret (mk ONe [] [b; a]))
   <|> match a with
       | Node OIf [] [c; t; f] _ =>
@@ -341,11 +354,11 @@ Definition simp_add (args : list expr) : res (option expr) :=
   | [Node OSub [] [x; (BVVe _ _) as y] _; (BVVe _ _) as z] =>
       (* (x - y) + z ==> x - (y - z) *)
       do d <- mk OSub [] [y; z]; ret (mk OSub [] [x; d])
-  | a0 :: _ => flatten OAdd (Some add_filter) args (Some (cbvv 0 (elen a0)))
+  | a0 :: _ => flatten OAdd FAdd args (Some (cbvv 0 (elen a0)))
   | [] => Crash PyType
   end.
 
-Definition simp_mul (args : list expr) : res (option expr) := flatten OMul None args None.
+Definition simp_mul (args : list expr) : res (option expr) := flatten OMul FNone args None.
 
 Definition simp_sub (a b : expr) : res (option expr) :=
   match b with
@@ -362,7 +375,7 @@ Definition simp_sub (a b : expr) : res (option expr) :=
               do d <- mk OSub [] [lastc; b];
               match aargs with
               | [x; _] => ret (mk OAdd [] [x; d])
-              | _ => ret (construct OAdd [] (rev rest_rev ++ [d]))   (* make_like: no simplification *)
+              | _ => unmodelled   (* (x + y + c) - z, rebuilt through make_like without simplification: not yet covered by a proof *)
               end
           | _ => skip
           end
@@ -385,8 +398,8 @@ Definition simp_xor (args : list expr) : res (option expr) :=
       <|> when (expr_eqb a b) (done z)
       <|> test (mk OEq [] [a; b]) (done z)
       <|> guard_unmodelled (minmax_trigger a b)
-      <|> flatten OXor (Some xor_filter) args (Some z)
-  | a :: _ => flatten OXor (Some xor_filter) args (Some (cbvv 0 (elen a)))
+      <|> flatten OXor FXor args (Some z)
+  | a :: _ => flatten OXor FXor args (Some (cbvv 0 (elen a)))
   | [] => Crash PyType
   end.
 
@@ -407,8 +420,8 @@ Definition simp_or (args : list expr) : res (option expr) :=
       <|> when (expr_eqb b z) (done a)
       <|> same_value_rule a b
       <|> when (expr_eqb a b) (done a)
-      <|> flatten OOr (Some dedup) args None
-  | _ => flatten OOr (Some dedup) args None
+      <|> flatten OOr FDedup args None
+  | _ => flatten OOr FDedup args None
   end.
 
 (* head of rotate_shift_mask_simplifier *)
@@ -431,8 +444,8 @@ Definition simp_and (args : list expr) : res (option expr) :=
       <|> when (is_zero_bvv a || is_zero_bvv b) (done (cbvv 0 (elen a)))
       <|> guard_unmodelled ((match a with Node OConcat [] [_; _] _ => true | _ => false end)
                             || (is_op OIf a && is_op OIf b))
-      <|> flatten OAnd (Some dedup) args None
-  | _ => flatten OAnd (Some dedup) args None
+      <|> flatten OAnd FDedup args None
+  | _ => flatten OAnd FDedup args None
   end.
 
 Definition simp_invert (e : expr) : res (option expr) :=
@@ -452,7 +465,7 @@ Definition simp_bor (args : list expr) : res (option expr) :=
     | [] => done (BoolVe false)
     | na => ret (mk OBOr [] na)
     end
-  else flatten OBOr (Some dedup) args None.
+  else flatten OBOr FDedup args None.
 
 (* boolean_and_simplifier: the constant-elimination prefix and the flattening; the "series of binary
    conditions over one variable" tail is not modelled *)
@@ -473,7 +486,7 @@ Definition simp_band (args : list expr) : res (option expr) :=
              when (expr_eqb x x' && expr_eqb y y') (ret (mk OUGT [] [x; y]))
          | _ => skip
          end)
-    <|> (do f <- flatten OBAnd (Some dedup) args' None;
+    <|> (do f <- flatten OBAnd FDedup args' None;
          match f with
          | None => skip
          | Some fl =>
